@@ -339,13 +339,31 @@ func (x *Exec) checkStep(sp *LoopSpec, start *State, ends []*State, ord int) {
 			if lab == "" {
 				lab = fmt.Sprintf("step%d", i+1)
 			}
+			// tag `next`: the clause is about iterations that go on to the next one (not break / return)
+			prop := ""
+			onlyNext := false
+			for _, t := range strings.Split(cl.Prop, ",") {
+				switch t = strings.TrimSpace(t); t {
+				case "next":
+					onlyNext = true
+				case "", "assume":
+				default:
+					if prop != "" {
+						prop += ","
+					}
+					prop += t
+				}
+			}
+			if onlyNext && o.out != outNormal && o.out != outContinue {
+				continue
+			}
+			if prop != "" && !propIn(prop, x.prop) {
+				continue
+			}
 			x.contract = true
 			phi := x.evalBool(cl.Expr, o)
 			x.contract = false
-			ob := x.oblige(o, "loop-step", fmt.Sprintf("loop%d.%s", ord, lab), phi, cl.Src)
-			if cl.Prop != "" && cl.Prop != "assume" {
-				ob.Prop = cl.Prop
-			}
+			x.oblige(o, "loop-step", fmt.Sprintf("loop%d.%s", ord, lab), phi, cl.Src)
 		}
 		o.old = saveOld
 		x.inlineLitPos = savePos
